@@ -355,6 +355,10 @@ def cross_section(P, rep, rule="EXPR.crosssection"):
     def hook2(n):
         s = astq.subscript(n)
         if s:
+            # a reference local naming a member (`const Point<2> &origin = cross_section[0]`) stands for that member
+            b0 = astq.resolve_alias(P, F2, s[0])
+            if b0 is not None and b0 is not sc(s[0]):
+                s = (b0, s[1])
             if astq.is_ref_to(s[0], pk):
                 i = sc(s[1])
                 if i.get("k") == "IntegerLiteral":
@@ -646,8 +650,10 @@ def background_fill(P, rep, rule="EXPR.background"):
         cnt_n, val_n = fill_form(app[0][1])
         fill = sc(val_n)
         try:
-            cnt = sp.expand(norm.Sym(P, F, inline_locals=False, hook=layout.prop_hook(P))(cnt_n))
+            cnt = sp.expand(norm.Sym(P, F, inline_locals=True, hook=layout.prop_hook(P))(cnt_n))
         except Exception:
+            cnt = None
+        if cnt is not None and cnt.free_symbols and not sp.expand(cnt / 10).is_polynomial():
             cnt = None
         zero = fill is not None and fill.get("k") in ("FloatingLiteral", "IntegerLiteral") and float(fill.get("v")) == 0.0
         # the count itself is compared with the width tables by LAYOUT.L1; here: ten values per grain, all zero
